@@ -21,7 +21,8 @@ var c07SigHint = regexp.MustCompile(`\+A[^+]*`)
 func TestVerifC07SignManifest(t *testing.T) {
 	defer stats.Flush()
 	rapid.Check(t, func(t *rapid.T) {
-		m := mgen.Gen(t, mgen.GenOpts{Signed: true})
+		huge := rapid.IntRange(0, 24).Draw(t, "hugeLine") == 0
+		m := mgen.Gen(t, mgen.GenOpts{Signed: true, HugeLine: huge, BigStreams: rapid.IntRange(0, 7).Draw(t, "bigStreams") == 0})
 		txt := m.Text()
 		token := c07Token(t, "token")
 		key := c07Key(t, "key")
@@ -65,7 +66,7 @@ func TestVerifC07SignManifest(t *testing.T) {
 			}
 		}
 		f := m.Features()
-		stats.Case(stats.FP("signmanifest", txt, token, string(key), ttl, expHex), true, "sign-manifest", fmt.Sprintf("resigned>0=%v", nresigned > 0), fmt.Sprintf("escaped-names=%v", f.EscapedName))
+		stats.Case(stats.FP("signmanifest", txt, token, string(key), ttl, expHex), true, "sign-manifest", fmt.Sprintf("resigned>0=%v", nresigned > 0), fmt.Sprintf("escaped-names=%v", f.EscapedName), fmt.Sprintf("line>64KiB=%v", huge))
 		stats.InfoAdd("c07_manifest_locators_checked", int64(nloc))
 		if stats.WantSample("sign-manifest") {
 			stats.Sample("sign-manifest", map[string]string{"in": txt, "out": out, "token": token})
